@@ -63,6 +63,9 @@ var Profiles = map[string]Profile{
 	"redefgen": {Types: []string{"T1", "T2", "T3", "T4"}, Names: []string{"", "", "", "a", "b"}, Subs: []string{""},
 		MaxIn: 1, MaxOut: 1, MaxTIn: 2, MaxInputs: 2, MaxConvs: 2, Forms: []string{"pos", "struct", "ptr", "built"}, FailProb: 0.05, OnceProb: 0.3,
 		MultiMax: 0, Modes: []string{"redefine"}, TargetOuts: 1, GenProb: 0.9},
+	"redefsub": {Types: []string{"T1", "T2"}, Names: []string{"a", "a", "a", ""}, Subs: []string{"", "", "x"},
+		MaxIn: 1, MaxOut: 1, MaxTIn: 1, MaxInputs: 2, MaxConvs: 2, Forms: []string{"pos", "struct", "ptr", "built"}, FailProb: 0, OnceProb: 0.4,
+		MultiMax: 0, Modes: []string{"redefine"}, TargetOuts: 1},
 	"redeffail": {Types: []string{"T1", "T2", "T3", "T4"}, Names: []string{"", "", "a", "b"}, Subs: []string{""},
 		MaxIn: 1, MaxOut: 1, MaxTIn: 2, MaxInputs: 2, MaxConvs: 4, Forms: []string{"pos", "struct", "ptr"}, FailProb: 0.3, OnceProb: 0.1,
 		MultiMax: 0, Modes: []string{"redefine"}, TargetOuts: 2},
@@ -84,7 +87,7 @@ var Profiles = map[string]Profile{
 	"built": {Types: []string{"T1", "T2", "T3", "T4"}, Ifaces: []string{"I1"}, Names: []string{"", "", "", "a", "a", "b", "x-y"}, Subs: []string{"", "", "s"},
 		MaxIn: 2, MaxOut: 2, MaxTIn: 3, MaxInputs: 3, MaxConvs: 4, Forms: []string{"built"}, FailProb: 0.15, OnceProb: 0.15,
 		MultiMax: -1, Modes: []string{"call", "call", "call", "redefine"}, TargetOuts: 2},
-	"wild": {Types: []string{"T1", "T2", "T3", "T4", "T5", "U1", "P1"}, Ifaces: []string{"I1", "I2", "I12"}, Names: []string{"", "", "", "a", "a", "b", "b", "c", "x-y", "_z"}, Subs: []string{"", "", "", "", "s", "s", "t", "s=x", "S", "p%d"},
+	"wild": {Types: []string{"T1", "T2", "T3", "T4", "T5", "U1", "P1"}, Ifaces: []string{"I1", "I2", "I12"}, Names: []string{"", "", "", "a", "a", "b", "b", "c", "x-y", "_z", "xuml"}, Subs: []string{"", "", "", "", "s", "s", "t", "s=x", "S", "p%d"},
 		MaxIn: 3, MaxOut: 3, MaxTIn: 3, MaxInputs: 4, MaxConvs: 5, Forms: []string{"pos", "struct", "ptr", "built"}, FailProb: 0.1, OnceProb: 0.2,
 		MultiMax: -1, Modes: []string{"call", "call", "convert", "redefine"}, GenProb: 0.15, DefProb: 0.2, BadProb: 0.1, DupInputs: true, TargetOuts: 2},
 }
